@@ -6,12 +6,15 @@
    hands it the same (hash, bytes) for the same bytes; this module enumerates producer pairs x lengths around
    the word / block sizes a hash function might treat specially x misalignments, with the expected verdict. *)
 EXTENDS Naturals, Sequences, TLC, Json
-CONSTANTS Lens, Offs, Routes
+CONSTANTS Lens, Offs, Routes,
+          LongLens, LongOffs     \* lengths around the sizes a length field or a "short string" fast path might treat specially (255/256/257, 1024, 4097, 65536)
 VARIABLE icase
 
 Content(len, variant) == [i \in 1..len |-> 97 + ((i * 7 + (IF i = len THEN variant ELSE 0)) % 26)]
 Cases == {[len |-> l, r1 |-> a, r2 |-> b, o1 |-> x, o2 |-> y, same |-> s] :
              l \in Lens, a \in Routes, b \in Routes, x \in Offs, y \in Offs, s \in BOOLEAN}
+         \cup {[len |-> l, r1 |-> a, r2 |-> b, o1 |-> x, o2 |-> y, same |-> s] :
+             l \in LongLens, a \in Routes, b \in Routes, x \in LongOffs, y \in LongOffs, s \in BOOLEAN}
 Wanted(c) == c.len > 0 \/ c.same        \* two empty strings cannot differ
 Bytes1(c) == Content(c.len, 0)
 Bytes2(c) == Content(c.len, IF c.same THEN 0 ELSE 1)
